@@ -156,6 +156,15 @@ op('arctan', n=1, call=lambda a: a.arctan(), fail=None, ref=np.arctan)
 op('arctan2', n=2, call=lambda a, b: a.arctan2(b), fail=None, ref=np.arctan2, elementwise=True)
 op('reciprocal', n=1, call=lambda a, nozeros=False: a.reciprocal(nozeros=nozeros), fail=lambda v: (0, v[0] == 0),
    ref=lambda x: 1. / x, fast='nozeros')
+# further element-wise Scalar methods (mask passes through; no domain restriction)
+op('sign', n=1, call=lambda a: a.sign(), fail=None, ref=np.sign)
+op('sign0', n=1, call=lambda a: a.sign(zeros=False), fail=None, ref=lambda x: np.where(x == 0, 1., np.sign(x)))
+op('int', n=1, call=lambda a: a.int(), fail=None, ref=np.floor)
+op('frac', n=1, call=lambda a: a.frac(), fail=None, ref=lambda x: x % 1.)
+op('as_int', n=1, call=lambda a: a.as_int(), fail=None, ref=None)
+op('as_float', n=1, call=lambda a: a.as_float(), fail=None, ref=lambda x: x)
+op('absm', n=1, call=lambda a: a.abs(), fail=None, ref=np.abs)
+op('round', n=1, call=lambda a: round(a, 0), fail=None, ref=None)
 # vector / matrix / quaternion products
 op('dot', n=2, call=lambda a, b: a.dot(b), fail=None, ref=lambda x, y: np.sum(x * y, axis=-1))
 op('cross', n=2, call=lambda a, b: a.cross(b), fail=None,
@@ -201,14 +210,44 @@ op('ucross', n=2, call=lambda a, b: a.ucross(b),
 op('with_norm', n=1, call=lambda a: a.with_norm(2.), fail=lambda v: (0, np.all(v[0] == 0, axis=-1)), ref=None)
 
 
+# ------------------------------------------------------------------ operand provenance: views of one parent object
+def py_index(sel):
+    """('i', k) -> k ; ('s', start, stop, step) -> slice"""
+    if sel[0] == 'i':
+        return sel[1]
+    return slice(sel[1], sel[2], sel[3])
+
+
+def child(par, sel):
+    """the operand dict describing parent[sel] (values and expanded mask sliced with plain NumPy)"""
+    cls, item, dt = KINDS[par['k']]
+    idx = py_index(sel)
+    v = np.array(par['v8'], dtype='int64').reshape(tuple(par['shape']) + item)[idx]
+    bits = opd_mask_bits(par)[idx]
+    shape = list(np.shape(bits))
+    if par['mask'] in ('T', 'F'):
+        m = par['mask']
+    elif not shape:
+        m = 'T' if bool(bits) else 'F'
+    else:
+        m = [bool(x) for x in np.asarray(bits).ravel()]
+    return {'k': par['k'], 'shape': shape, 'v8': [int(x) for x in np.asarray(v).ravel()], 'mask': m}
+
+
 # ------------------------------------------------------------------ running the real code
 def run_real(case):
     """-> (result or None, exception or None, [warning category names])"""
     spec = OPS[case['op']]
     objs = []
-    for k, o in enumerate(case['opds']):
-        share = objs[0] if (case.get('share') and k == 1 and isinstance(objs[0], Qube)) else None
-        objs.append(build(o, share))
+    if case.get('prov'):
+        # the operands are distinct views (rows / slices / strided / reversed) of ONE parent object,
+        # so their mask arrays share a base with different offsets
+        parent = build(case['prov']['par'])
+        objs = [parent[py_index(sel)] for sel in case['prov']['sels']]
+    else:
+        for k, o in enumerate(case['opds']):
+            share = objs[0] if (case.get('share') and k == 1 and isinstance(objs[0], Qube)) else None
+            objs.append(build(o, share))
     if case.get('alias'):                     # the very same object on both sides
         objs[1] = objs[0]
     if case.get('swap'):                      # reflected form: operands given in swapped order
@@ -269,13 +308,18 @@ def fail_set(case):
 
 
 def undefined_unmasked(case):
-    """is some UNMASKED operand element outside the domain? (fast paths may then raise ValueError)"""
+    """is some UNMASKED operand element outside the domain? (only then may a fast path raise ValueError;
+    values hidden underneath a mask must not make it raise)"""
     spec = OPS[case['op']]
     opds = logical_opds(case)
     vals = [values_of(o).astype(float) for o in opds]
     where, bits = spec['fail'](vals)
+    bits = np.asarray(bits, dtype=bool)
     out = lead_bcast([o['shape'] for o in opds])
-    bits = np.broadcast_to(np.asarray(bits, dtype=bool), tuple(out))
+    m = np.zeros(tuple(out), dtype=bool)
+    for o in opds:
+        m = m | np.broadcast_to(opd_mask_bits(o), tuple(out))
+    bits = np.broadcast_to(bits, tuple(out)) & ~m
     return bool(bits.any())
 
 
